@@ -671,9 +671,13 @@ func cmdCheck(args []string) int {
 	if unsupportedTotal > 0 || inconclusiveTotal > 0 {
 		fmt.Printf("INCONCLUSIVE: property=%s unsupported_paths=%d inconclusive_events=%d (see evidence)\n", id, unsupportedTotal, inconclusiveTotal)
 	}
-	if engineFault != "" {
+	if engineFault != "" && len(reported) == 0 {
 		fmt.Printf("ENGINE-FAULT: property=%s %s\n", id, engineFault)
 		return 3
+	}
+	if engineFault != "" {
+		// a natively reproduced violation does not depend on the engine; the disagreement is still shown
+		fmt.Printf("NOTE: property=%s engine/native disagreement on a sampled path: %s\n", id, engineFault)
 	}
 	if len(reported) > 0 {
 		vdir := filepath.Join(verifRoot, "work", id, "violations")
